@@ -125,6 +125,41 @@ def run(ctx):
                                   "%s %s with the string value %r is %s on parse -> print -> parse; printed as %r" % (ot.upper(), it.key.upper(), w, what, shown),
                                   {"text": text, "printed": shown})
     ctx.count("string_slot_roundtrips", n_str)
+    # ---- a keyword typed number-or-string, carrying the number N in one block and the string "N" in the next
+    # (one document, one printer: the two must not be confused)
+    n_mix = 0
+    for ot in docs.object_types():
+        by_key = {}
+        for it in docs.slot_items(ot):
+            if it.kind == "attr" and not it.repeated and it.tokens and len(it.tokens) == 2:
+                by_key.setdefault(it.key, []).append(it)
+        for key, its in by_key.items():
+            nums = [x for x in its if x.shape.startswith(("number:", "integer:")) and isinstance(x.intended, (int, float)) and not isinstance(x.intended, bool)]
+            strs = [x for x in its if x.shape == "string"]
+            if not nums or not strs:
+                continue
+            num = nums[0]
+            sitem = docs.Item(key, [strs[0].tokens[0], docs.T("qstr", num.tokens[1].text)], num.tokens[1].text, "string")
+            for order in ((num, sitem), (sitem, num)):
+                blocks = [docs.Block(ot, [order[0]], False), docs.Block(ot, [order[1]], False)]
+                text = docs.render(blocks, docs.Layout())[0]
+                try:
+                    d = sweep.fast_loads(text)
+                except Exception:
+                    continue
+                n_mix += 1
+                ctx.note_case(("numstr", ot, key, order[0] is num))
+                r = rt.roundtrip_failure(d, sweep.fast_loads, pp.pprint)
+                r2 = rt.roundtrip_failure(d, sweep.fast_loads, PrettyPrinter().pprint)
+                if r and not r2:
+                    ctx.violation("roundtrip:number-and-string-confused:%s.%s" % (ot, key),
+                                  "%s %s written once as the number %s and once as the string \"%s\" in one document does not survive parse -> print -> parse (a fresh printer handles it): %r"
+                                  % (ot.upper(), key.upper(), num.tokens[1].text, num.tokens[1].text, r[:2]), {"text": text, "printed": r[2]})
+                elif r:
+                    sym = rt.slot_symptom(d)
+                    ctx.violation(("printed-text-rejected:" if r[0] == "rejected" else "roundtrip:") + sym + ("" if sym.startswith("allOf") else ":number-or-string"),
+                                  "%s %s as number and as string in one document: %r" % (ot.upper(), key.upper(), r[:2]), {"text": text, "printed": r[2]})
+    ctx.count("number_or_string_documents", n_mix)
     # ---- correspondence: printer model on the loaded dictionaries, parser model on the printed texts
     if ctx.model_ok:
         from corr import printer as P
